@@ -360,6 +360,13 @@ def inline_calls(e, R, mod, depth=3, class_q=None, scope=None):
 
 
 # --------------------------------------------------------------------------- guards, also through helpers
+def _attr_chain(e):
+    """a.b.c : plain attribute chain rooted at a name"""
+    while isinstance(e, ast.Attribute):
+        e = e.value
+    return isinstance(e, ast.Name)
+
+
 def resolve_helper(R, f, call):
     """repository function called by `call` inside Func f: module function by name, nested def, self./cls./Class. method"""
     from .repo import Func
@@ -397,6 +404,17 @@ def resolve_helper(R, f, call):
                 if owners and owners <= fam:
                     h = R.funcs[q]
                     return h, (0 if h.is_static else 1)
+    # <path>.m(...) with m a NEW method (outside the baseline table) that exactly one class family of the repository defines:
+    # whatever object the path denotes, a call that succeeds runs that method
+    if isinstance(fn, ast.Attribute) and isinstance(fn.value, ast.Attribute) and _attr_chain(fn.value):
+        new = set(getattr(R, "new_functions", []) or [])
+        owners = [g for g in R.funcs.values() if g.name == fn.attr and g.cls]
+        if owners and all(g.qname in new for g in owners):
+            fams = {frozenset(set(R.mro(g.class_q)) | set(R.subclasses(g.class_q))) for g in owners}
+            if len(owners) == 1 or all(g.class_q in fam for fam in fams for g in owners):
+                h = owners[0] if len(owners) == 1 else None
+                if h is not None and not h.is_static and not h.is_classmethod:
+                    return h, 1
     return None, 0
 
 
